@@ -9,6 +9,7 @@
 //                                    pattern bytes derived from (id, N) verified on every read
 //   int, std::string (short and long), std::unique_ptr<Blob<24>> (move-only),
 //   std::shared_ptr<Blob<24>>, UBox<S> (move-only, S bytes), SBox<S> (shared ownership, S bytes)
+//   with S = the capacity and the capacity + 8
 // Construction forms: lvalue, const lvalue, rvalue, const rvalue, temporary, and a copy of the
 // object held by ANOTHER AnyData.  Oracle (what the statement promises, nothing else):
 //   * reading back by get<T>(), conversion to T&, to T*, and getAddress() gives the stored value,
@@ -31,7 +32,9 @@
 //
 // modes (--mode): random (default; one random scenario per case),
 //                 exhaustive (every type x every construction form once per case)
-// options (--opt): cap=16|24|64 (fix the capacity; default by case number), steps=N
+// options (--opt): cap=16|24|64 (fix the capacity; default caseNo % 3), steps=N (operations of a random case, default 10..40)
+// build: one binary takes ~110 s (g++ -O1 ASan+UBSan); -DVF_CAP_MASK=1|2|4 gives three binaries of < 60 s
+//        each (run each with --opt cap=16|24|64), see below
 #include "vcommon.h"
 #include "vledger.h"
 #include "vaccess.h"
